@@ -573,4 +573,145 @@ theorem residual_hasFDerivAt {n E : ℕ} {k : Fin E → ℕ} (eqs : (e : Fin E) 
   ext v
   simp [assembleJac, Matrix.mulVec, dotProduct]
 
+/-! ## vocabulary trees: the smooth region as explicit inequalities -/
+
+theorem log_sound1 (x : ℝ) (h : x ≠ 0) : Sound1 logRule x := by
+  have := Real.hasDerivAt_log h
+  simpa [Sound1, logRule, one_div] using this
+
+theorem tan_sound1 (x : ℝ) (h : Real.cos x ≠ 0) : Sound1 tanRule x := by
+  have := Real.hasDerivAt_tan h
+  simpa [Sound1, tanRule, one_div] using this
+
+theorem arctan_sound1 (x : ℝ) : Sound1 arctanRule x := by
+  have := Real.hasDerivAt_arctan' x
+  simpa [Sound1, arctanRule, add_comm] using this
+
+/-- the unary node kinds of the vocabulary (library functions with the arguments bound by `functools.partial`,
+    and powers with a constant exponent) -/
+inductive Fn1 where
+  | exp | log | sin | cos | tan | sinh | cosh | tanh | arctan | arcsin | arccos | arcsinh | arccosh | arctanh | abs
+  | powConst (c : ℝ) | powInt (c : ℤ)
+  | charFn (tol : ℝ) | heaviside (z : ℝ) | heavisideSmooth (eps : ℝ) | safePower (p z tol : ℝ)
+
+noncomputable def Fn1.rule : Fn1 → Rule1 ℝ
+  | .exp => expRule | .log => logRule | .sin => sinRule | .cos => cosRule | .tan => tanRule
+  | .sinh => sinhRule | .cosh => coshRule | .tanh => tanhRule | .arctan => arctanRule
+  | .arcsin => arcsinRule | .arccos => arccosRule | .arcsinh => arcsinhRule | .arccosh => arccoshRule
+  | .arctanh => arctanhRule | .abs => absRule
+  | .powConst c => powConstRule c | .powInt c => powIntRule c (c : ℝ)
+  | .charFn tol => charRule tol | .heaviside z => heavisideRule z
+  | .heavisideSmooth eps => heavisideSmoothRule eps | .safePower p z tol => safePowerRule p z tol
+
+/-- the side condition of a unary kind at the value of its argument: an explicit (in)equality -/
+def Fn1.ok : Fn1 → ℝ → Prop
+  | .exp, _ | .sin, _ | .cos, _ | .sinh, _ | .cosh, _ | .tanh, _ | .arctan, _ | .arcsinh, _ => True
+  | .log, x => x ≠ 0
+  | .tan, x => Real.cos x ≠ 0
+  | .arcsin, x | .arccos, x | .arctanh, x => |x| < 1
+  | .arccosh, x => 1 < x
+  | .abs, x => x ≠ 0
+  | .powConst c, x => x ≠ 0 ∨ 1 ≤ c
+  | .powInt c, x => x ≠ 0 ∨ 0 ≤ c
+  | .charFn tol, x => |x| ≠ tol
+  | .heaviside _, x => x ≠ 0
+  | .heavisideSmooth eps, _ => eps ≠ 0
+  | .safePower _ _ tol, x => 0 ≤ tol ∧ |x| ≠ tol
+
+theorem Fn1.sound (f : Fn1) (x : ℝ) (h : f.ok x) : Sound1 f.rule x := by
+  cases f with
+  | exp => exact Real.hasDerivAt_exp x
+  | log => exact log_sound1 x h
+  | sin => exact Real.hasDerivAt_sin x
+  | cos => exact Real.hasDerivAt_cos x
+  | tan => exact tan_sound1 x h
+  | sinh => exact Real.hasDerivAt_sinh x
+  | cosh => exact Real.hasDerivAt_cosh x
+  | tanh => exact tanh_hasDerivAt x
+  | arctan => exact arctan_sound1 x
+  | arcsin => exact arcsin_sound1 x h
+  | arccos => exact arccos_sound1 x h
+  | arcsinh => exact arcsinh_sound1 x
+  | arccosh => exact arccosh_sound1 x h
+  | arctanh => exact arctanh_sound1 x h
+  | abs => exact hasDerivAt_abs h
+  | powConst c => exact Real.hasDerivAt_rpow_const h
+  | powInt c => exact powInt_sound1 c x h
+  | charFn tol => exact char_hasDerivAt tol x h
+  | heaviside z => exact heaviside_hasDerivAt z x h
+  | heavisideSmooth eps => exact heavisideSmooth_sound1 eps x h
+  | safePower p z tol => exact safePower_sound1 p z tol x h.1 h.2
+
+/-- the binary elementwise node kinds -/
+inductive Op2 where
+  | add | sub | mul | div | max | pow
+
+noncomputable def Op2.rule : Op2 → Rule2 ℝ
+  | .add => addRule | .sub => subRule | .mul => mulRule | .div => divRule | .max => maxRule | .pow => powRule
+
+def Op2.ok : Op2 → ℝ → ℝ → Prop
+  | .add, _, _ | .sub, _, _ | .mul, _, _ => True
+  | .div, _, b => b ≠ 0
+  | .max, a, b => a ≠ b
+  | .pow, a, _ => 0 < a
+
+theorem Op2.sound (o : Op2) (a b : ℝ) (h : o.ok a b) : Sound2 o.rule a b := by
+  cases o with
+  | add => exact add_sound2 a b
+  | sub => exact sub_sound2 a b
+  | mul => exact mul_sound2 a b
+  | div => exact div_sound2 a b h
+  | max => exact max_sound2 a b h
+  | pow => exact pow_sound2 a b h
+
+/-- expression trees built from the vocabulary only (what the tree auditor finds in the shipped models) -/
+inductive VTree (n : ℕ) : ℕ → Type
+  | var {m : ℕ} (dofs : Fin m → Fin n) : VTree n m
+  | const {m : ℕ} (c : Vec m) : VTree n m
+  | fn {m : ℕ} (f : Fn1) (t : VTree n m) : VTree n m
+  | op {m : ℕ} (o : Op2) (t₁ t₂ : VTree n m) : VTree n m
+  | matmul {m k : ℕ} (M : Mat k m) (t : VTree n m) : VTree n k
+  | norm {m k dim : ℕ} (g : Fin k → Fin dim → Fin m) (t : VTree n m) : VTree n k
+
+noncomputable def VTree.toTree {n : ℕ} : {k : ℕ} → VTree n k → Tree n k
+  | _, .var dofs => .var dofs
+  | _, .const c => .const c
+  | _, .fn f t => .un (ewise1 f.rule) t.toTree
+  | _, .op o t₁ t₂ => .bin (ewise2 o.rule) t₁.toTree t₂.toTree
+  | _, .matmul M t => .un (linRule M) t.toTree
+  | _, .norm g t => .un (normRule g) t.toTree
+
+/-- admissible state: at every node the explicit side condition of its kind holds for the values of its
+    children (no vanishing denominator, no tie of a maximum, positive base of a general power, argument of `log`,
+    `abs`, `heaviside` nonzero, `|argument| ≠ tol`, no vanishing cell vector of a norm, …) -/
+def VTree.Admissible {n : ℕ} : {k : ℕ} → VTree n k → Vec n → Prop
+  | _, .var _, _ => True
+  | _, .const _, _ => True
+  | _, .fn f t, x => t.Admissible x ∧ ∀ i, f.ok (t.toTree.val x i)
+  | _, .op o t₁ t₂, x => t₁.Admissible x ∧ t₂.Admissible x ∧ ∀ i, o.ok (t₁.toTree.val x i) (t₂.toTree.val x i)
+  | _, .matmul _ t, x => t.Admissible x
+  | _, .norm g t, x => t.Admissible x ∧ ∀ c, ∑ d, t.toTree.val x (g c d) ^ 2 ≠ 0
+
+theorem VTree.smooth {n : ℕ} : ∀ {k : ℕ} (t : VTree n k) (x : Vec n), t.Admissible x → t.toTree.Smooth x
+  | _, .var _, _, _ => trivial
+  | _, .const _, _, _ => trivial
+  | _, .fn f t, x, h => ⟨VTree.smooth t x h.1, ewise1_soundAt _ _ fun i => f.sound _ (h.2 i)⟩
+  | _, .op o t₁ t₂, x, h =>
+      ⟨VTree.smooth t₁ x h.1, VTree.smooth t₂ x h.2.1, ewise2_soundAt _ _ _ fun i => o.sound _ _ (h.2.2 i)⟩
+  | _, .matmul M t, x, h => ⟨VTree.smooth t x h, linRule_soundAt M _⟩
+  | _, .norm g t, x, h => ⟨VTree.smooth t x h.1, normRule_soundAt g _ h.2⟩
+
+/-! ## sub-systems: `assemble(equations=…, variables=…)` -/
+
+/-- a direction that only moves the selected columns (dofs of the requested variables) -/
+def scatter {n p : ℕ} (cols : Fin p → Fin n) (η : Vec p) : Vec n := fun j => ∑ c, if cols c = j then η c else 0
+
+theorem mulVec_scatter {ι : Type} {n p : ℕ} (A : Matrix ι (Fin n) ℝ) (cols : Fin p → Fin n) (η : Vec p) (r : ι) :
+    A.mulVec (scatter cols η) r = ∑ c, A r (cols c) * η c := by
+  simp only [Matrix.mulVec, dotProduct, scatter, Finset.mul_sum, mul_ite, mul_zero]
+  rw [Finset.sum_comm]
+  apply Finset.sum_congr rfl
+  intro c _
+  simp
+
 end PorepyVerif.C03
